@@ -200,7 +200,7 @@ PROPS['C12'] = dict(refines=[(r'^O RXMISMATCH', 'after the failure the pending a
 PROPS['C13'] = dict(layers=[config.ConfigLayer()], planned=['C13_listings at daemon level (nodes / device replies) — the replies themselves are mirrored in Pm.Daemon and compared on every run'])
 PROPS['C14'] = dict(layers=[hostlist.HostlistLayer()], planned=['C14_roundtrip', 'C14_sort_perm', 'C14_three_hops'])
 PROPS['C18'] = dict(layers=[lexlayer.LexLayer(), config.ConfigLayer(prop='C18'), gramlayer.GrammarLayer()], planned=['the flex/bison automata, malloc and regcomp are not modelled: their memory safety on arbitrary input is observed under ASan/UBSan by the whole-file fuzz of this layer, not proved'])
-PROPS['C19'] = dict(layers=[redfish.RedfishLayer()], planned=['C19_bad_input (setplugs argument checks, malformed ranges) on a model of the command parser'])
+PROPS['C19'] = dict(layers=[redfish.RedfishLayer()], planned=['`Safe` (no undefined or cyclic parent, every plug with a status path) preserved by setplugs with a defined acyclic parent and by setpath', 'the `outside` branches of the command layer (known findings F40-F42) are not described further'])
 PROPS['C20'] = dict(layers=[D(P.p_c20, profile=dict(pF6=0.02, maxclients=6), leaks=True, deaths=shutdown_deaths)], planned=['C20_refcount', 'C20_objects', 'C20_shutdown (signal path / teardown not modelled yet)'])
 PROPS['C15'] = dict(layers=[D(P.p_c15, P.p_c04, P.p_c04_quit, profile=dict(garbage=0.06, maxclients=6, burst=0.01))], planned=['client output beyond the 1 MiB buffer: the model never drops client output (the property carries that proviso; cbuf_write overwrites the oldest unsent bytes in C)', 'configuration strings with CR/LF escapes are outside `Good` (as coded: observation)'])
 PROPS['C16'] = dict(layers=[libpm.LibPmLayer()], planned=['memory safety of the remaining C is observed under ASan, not proved'])
